@@ -30,6 +30,23 @@ PROPOSALS = [None, "", "p", "p q", "a:b", "\x01p\x1f", "é", "p_0001", "(x)|y", 
              "/P", "../P", "../../P", "//e.com/P", "a/../../P", "..", ".", "?q", "#f", "x:y", "%2e%2e/P", "./",
              # canonically equivalent spellings: decomposed, composed, leading combining marks, compatibility forms
              "Spu\u0308l", "Sp\u00fcl", "\u0338P", "\u0301e", "e\u0301\u0323", "\ufb01x", "\u212b"]
+# An Identifier has at most IDMAX characters (model._string_constraints.check_identifier), a proposal is an arbitrary
+# string: proposals whose candidates lie just below / at / just above / far above that limit.  LONG_UNITS are repeated
+# to the wanted length (plain, needing escaping - the quoted text is longer than the raw one -, URL structure);
+# LONG_DELTAS = len(namespace + quoted proposal) - IDMAX.
+IDMAX = 2000
+LONG_UNITS = ["x", "ab", "p q", "a/b"]
+LONG_DELTAS = [-6, -5, -4, -1, 0, 1, 2, 5, 6, 47, 1000]
+LONG_NAMESPACES = ["urn:n:" + "n" * (IDMAX - 10) + "/", "urn:n:" + "n" * (IDMAX + 10) + "/", "http://h/" + "d/" * 1050]
+
+
+def long_proposal(rng, ns):
+    """a proposal whose first candidate ns + quote(proposal) has about IDMAX + delta characters"""
+    unit, want = rng.choice(LONG_UNITS), max(1, IDMAX + rng.choice(LONG_DELTAS) - len(ns))
+    p = unit * (want // len(unit) + 1)
+    while p and len(_quote(p)) > want:
+        p = p[:-1]
+    return p or unit
 
 
 # ------------------------------------------------------------------ SDK side
@@ -395,6 +412,36 @@ def probe_synthetic(rng):
                                          f"the first {n_known} candidates)", rp))
                     elif iri != cand(n_known):
                         failures.append(("not-first-free", "generated identifier is not the first free candidate", rp))
+    # candidates around / beyond the length limit of an Identifier; the provider knows the first candidates and the
+    # longest legal identifiers (IDMAX characters) that are prefixes of ANY candidate
+    for ns in ("http://x/", LONG_NAMESPACES[1]):
+        for unit in LONG_UNITS[:3]:
+            for delta in (-4, 0, 1, 500):
+                proposal = unit * ((max(1, IDMAX + delta - len(ns))) // len(unit) + 1)
+                q = _quote(proposal)
+
+                def cand(c):
+                    return ns + q + "_{:04d}".format(c) if c else ns + q
+                for n_known in (0, 1, 3):
+                    known_set = {cand(c) for c in range(n_known)} | {cand(c)[:IDMAX] for c in range(n_known + 3)
+                                                                     if len(cand(c)) > IDMAX}
+                    g = NamespaceIRIGenerator(ns, Synthetic(known_set.__contains__))
+                    for call in range(2):
+                        rp = {"synthetic": {"namespace": ns, "proposal": proposal, "known_candidates": n_known, "call": call,
+                                            "also_known": "the first %d characters of the first %d candidates" % (IDMAX, n_known + 3)}}
+                        try:
+                            iri = guarded(lambda: g.generate_id(proposal), 20.0)
+                        except Timeout:
+                            failures.append(("no-termination", "generate_id did not return although the provider knows "
+                                             "finitely many identifiers", rp))
+                            break
+                        if not isinstance(iri, str) or not iri.startswith(ns):
+                            failures.append(("outside-namespace", "generated identifier does not start with the namespace", rp))
+                        elif iri in known_set:
+                            failures.append(("known-id", "generated identifier is one the provider contains (a long proposal: "
+                                             "the provider knows the longest legal identifiers that are prefixes of candidates)", rp))
+                        elif iri != cand(n_known):
+                            failures.append(("not-first-free", "generated identifier is not the first free candidate", rp))
     return failures
 
 
@@ -404,14 +451,18 @@ def gen_theme(rng):
     """pool of (identifier, kind) where identifiers collide with the generator's candidates"""
     ns = rng.choice(NAMESPACES)
     props = rng.sample(PROPOSALS, 3)
+    if rng.random() < .025:      # the first proposal (the one used most) is a long one
+        props[0] = long_proposal(rng, ns)
     q = [_quote(p) for p in props]
     cands = [ns + (q[0] or "0000"), ns + q[0] + ("_0001" if q[0] else "0001"), ns + q[0] + ("_0002" if q[0] else "0002"),
              ns + (q[1] or "0000"), ns + "0000", ns + "0001", "other", "a b/c?d#e%f"]
     # other spellings of the first candidates (Unicode normal forms): different identifiers for store and generator
     twins = [t for c in cands[:2] for f in ("NFC", "NFD", "NFKC") for t in [unicodedata.normalize(f, c)] if t != c]
+    # the longest legal identifiers that are prefixes of candidates (an Identifier has at most IDMAX characters)
+    twins = list(dict.fromkeys([c[:IDMAX] for c in cands[:3] if len(c) > IDMAX])) + twins
     cands = cands[:2] + twins[:2] + cands[2:]
-    # an Identifiable cannot carry 0x1f (AASd-130), although _quote_iri_segment lets it through
-    cands = [c for c in cands if all(ord(ch) >= 32 and ord(ch) != 127 for ch in c)]
+    # an Identifiable cannot carry 0x1f (AASd-130), although _quote_iri_segment lets it through, nor more than IDMAX characters
+    cands = [c for c in cands if all(ord(ch) >= 32 and ord(ch) != 127 for ch in c) and len(c) <= IDMAX]
     nid = rng.randint(2, 4)
     # the first proposal's plain and _0001 candidates are usually taken, so that the generator has to count
     head = [c for c in cands[:2 + len(twins[:2])] if rng.random() < .8]
@@ -429,7 +480,12 @@ def gen_case(rng, maxlen):
     ns, props, pool = gen_theme(rng)
     n = rng.choice([1, 2, 2, 3, 3])
     ngen = rng.randint(0, 2)
+    long = any(len(p or "") > 500 for p in props)
+    if long:       # long identifiers are expensive on the model side: short histories centred on the generator
+        ngen, maxlen = max(ngen, 1), 4
     gens = [[ns if rng.random() < .8 else rng.choice(NAMESPACES), rng.randint(0, n + NMUX - 1)] for _ in range(ngen)]
+    if gens and rng.random() < .01:      # a namespace that alone exceeds the length limit of an Identifier
+        gens[-1][0] = rng.choice(LONG_NAMESPACES)
     ids = [p[0] for p in pool] + [ABSENT]
     nobj = len(pool)
     ops = []
@@ -458,7 +514,7 @@ def gen_case(rng, maxlen):
                 ops.append(["N", rng.randrange(n), rng.randrange(n)])
             else:
                 ops.append(["NL", rng.randrange(n), [rng.randrange(nobj) for _ in range(rng.randint(0, 4))], rng.randrange(3)])
-        elif r < .27 and gens:
+        elif r < (.6 if long else .27) and gens:
             ops.append(["G", rng.randrange(len(gens)), props[0] if rng.random() < .6 else rng.choice(props)])
         else:
             k = rng.randrange(n)
@@ -657,7 +713,7 @@ def run(chk):
     # synthetic providers knowing long runs of candidates (oracle only; the theorem covers every finite provider)
     for code, msg, rp in probe_synthetic(rng)[:3]:
         chk.fail(f"C13:generate_id:{code}", msg, dict(rp, how="tools/c13.py probe_synthetic(rng)"))
-    chk.count("synthetic_provider_probes", 2 * 3 * 8 * 2)
+    chk.count("synthetic_provider_probes", 2 * 3 * 8 * 2 + 2 * 3 * 4 * 3 * 2)
     # _quote_iri_segment on its own
     qin = quote_cases(rng, 300 if quick else 3000)
     qterms = ["(" + coq_list(str(c) for c in s.encode("utf-8")) + ", "
